@@ -134,3 +134,95 @@ def check_solve(n, A, perm_r, perm_c, L, U, Bv, Xv, unit_pow, k_gamma=None):
                 return "|b - A x|(%d, rhs %d) = %.3e exceeds gamma(%d)*(Pr^T|L||U|Pc^T|x|) = %.3e" % (
                     i, c, abs(r) * 2.0 ** e1, k, k * acc * 2.0 ** e2 / (P2 - k))
     return None
+
+
+# ---------------------------------------------------------------------------------------------------------------
+# Fraction-based variants that also handle complex data (values given as python complex).  For complex numbers the
+# modulus is not rational: the residual is bounded from BELOW by max(|re|,|im|) and the right-hand side from ABOVE by
+# |re|+|im| per factor, so a reported failure is a real failure of the stated inequality (with the relaxed constant).
+def _absu(z):   # upper bound of |z|
+    return abs(Fraction(z.real)) + abs(Fraction(z.imag)) if isinstance(z, complex) else abs(Fraction(z))
+
+
+def _absl(zr, zi):   # lower bound of |zr + i zi|
+    return max(abs(zr), abs(zi))
+
+
+def _cmul(a, b):
+    return (a[0] * b[0] - a[1] * b[1], a[0] * b[1] + a[1] * b[0])
+
+
+def _c(z):
+    return (Fraction(z.real), Fraction(z.imag)) if isinstance(z, complex) else (Fraction(z), Fraction(0))
+
+
+def check_lu_frac(n, A, perm_r, perm_c, L, U, unit_pow, k_gamma, transpose=False):
+    u = Fraction(1, 1 << unit_pow)
+    g = k_gamma * u / (1 - k_gamma * u)
+    Lrow = {}
+    for (i, j), v in L.items():
+        Lrow.setdefault(i, []).append((j, v))
+    Ucol = {}
+    for (i, j), v in U.items():
+        Ucol.setdefault(j, {})[i] = v
+    B = {}
+    for (i, j), v in A.items():
+        B[(perm_r[i], perm_c[j])] = v
+    for i in range(n):
+        for j in range(n):
+            s = (Fraction(0), Fraction(0)); sabs = Fraction(0)
+            col = Ucol.get(j, {})
+            for kk, lv in Lrow.get(i, []):
+                uv = col.get(kk)
+                if uv is not None:
+                    p = _cmul(_c(lv), _c(uv))
+                    s = (s[0] + p[0], s[1] + p[1])
+                    sabs += _absu(lv) * _absu(uv)
+            b = _c(B.get((i, j), 0.0))
+            r = _absl(b[0] - s[0], b[1] - s[1])
+            if r > g * sabs:
+                return "|PAPc - LU|(%d,%d) = %.3e exceeds gamma(%d)*(|L||U|) = %.3e" % (i, j, float(r), k_gamma, float(g * sabs))
+    return None
+
+
+def check_solve_frac(n, A, perm_r, perm_c, L, U, Bv, Xv, unit_pow, k_gamma, transposed=False):
+    """|b - op(A) x| <= gamma(k) * (M |x|), M = Pr^T |L||U| Pc^T (or its transpose when the factors are those of A^T)"""
+    u = Fraction(1, 1 << unit_pow)
+    g = k_gamma * u / (1 - k_gamma * u)
+    inv_r = {perm_r[i]: i for i in range(n)}
+    inv_c = {perm_c[j]: j for j in range(n)}
+    # M in original numbering: M[i][j] = sum_k |L|(pr(i),k) |U|(k,pc(j))
+    Lrow = {}
+    for (i, j), v in L.items():
+        Lrow.setdefault(i, []).append((j, _absu(v)))
+    Urow = {}
+    for (i, j), v in U.items():
+        Urow.setdefault(i, []).append((j, _absu(v)))
+    M = {}
+    for pi, lst in Lrow.items():
+        i = inv_r[pi]
+        for kk, lv in lst:
+            for pj, uv in Urow.get(kk, []):
+                j = inv_c[pj]
+                key = (j, i) if transposed else (i, j)
+                M[key] = M.get(key, 0) + lv * uv
+    Mrow = {}
+    for (i, j), v in M.items():
+        Mrow.setdefault(i, []).append((j, v))
+    Arow = {}
+    for (i, j), v in A.items():
+        Arow.setdefault(i, []).append((j, v))
+    for c in range(len(Xv)):
+        x = Xv[c]; b = Bv[c]
+        xa = [_absu(v) for v in x]
+        for i in range(n):
+            s = (Fraction(0), Fraction(0))
+            for j, av in Arow.get(i, []):
+                p = _cmul(_c(av), _c(x[j]))
+                s = (s[0] + p[0], s[1] + p[1])
+            bb = _c(b[i])
+            r = _absl(bb[0] - s[0], bb[1] - s[1])
+            bound = g * sum(v * xa[j] for j, v in Mrow.get(i, []))
+            if r > bound:
+                return "|b - A x|(%d, rhs %d) = %.3e exceeds gamma(%d)*(M|x|) = %.3e" % (i, c, float(r), k_gamma, float(bound))
+    return None
